@@ -417,7 +417,10 @@ class ConstantDiagLinearOperator(DiagLinearOperator):
     def solve_triangular(
         self, rhs: torch.Tensor, upper: bool, left: bool = True, unitriangular: bool = False
     ) -> torch.Tensor:
-        return rhs / self.diag_values
+        # diag_values is (*batch, 1): one constant per batch member, to be broadcast over the rows and columns of a
+        # matrix rhs (a 1-D rhs is a single vector)
+        diag = self.diag_values if rhs.dim() == 1 else self.diag_values.unsqueeze(-1)
+        return rhs / diag
 
     def sqrt(self: Float[LinearOperator, "*batch M N"]) -> Float[LinearOperator, "*batch M N"]:
         """
